@@ -18,6 +18,7 @@ import traceback
 
 from . import common
 from . import c20_qr
+from . import c20_large
 
 PROP = "C20"
 
@@ -145,6 +146,10 @@ def dense_toeplitz(c, r):
     """dense definition T[i,j] = c[i-j] if i>=j else r[j-i]; c, r: (..., n) float64 tensors (same shape)"""
     torch = torch_()
     n = c.shape[-1]
+    if n > 16:      # the same definition, assembled by index arithmetic (the explicit loops below are O(n^2) Python steps)
+        ar = torch.arange(n)
+        d = ar.unsqueeze(-1) - ar.unsqueeze(0)                       # d[i, j] = i - j
+        return torch.where(d >= 0, c.to(torch.float64)[..., d.clamp(min=0)], r.to(torch.float64)[..., (-d).clamp(min=0)])
     Tm = torch.zeros(*c.shape, n, dtype=torch.float64)
     for i in range(n):
         for j in range(n):
@@ -354,12 +359,10 @@ class KToeplitzDQF(K):
             left, right = left.unsqueeze(-1), right.unsqueeze(-1)
         m = left.shape[-2]
         res = torch.zeros(*left.shape[:-2], m, dtype=torch.float64)
+        ar = torch.arange(m)
+        dist = (ar.unsqueeze(-1) - ar.unsqueeze(0)).abs()             # dist[i, k] = |i - k|
         for d in range(m):
-            D = torch.zeros(m, m, dtype=torch.float64)
-            for i in range(m):
-                for k in range(m):
-                    if abs(i - k) == d:
-                        D[i, k] = 1.0
+            D = (dist == d).to(torch.float64)                         # ones on the d-th sub- and super-diagonal
             res[..., d] = (left * (D @ right)).sum((-2, -1))
         return tns(res)
 
@@ -1177,6 +1180,7 @@ def correspondence(ctx, cases, report=True):
     mism = [oi for oi, okk in spec_ok.items() if not okk]
     n_model_wrong = 0
     transcribed = 0
+    transcribed_keys = set()
     if report:
         for name, out in shard_fail:
             ctx.violation({"kind": "shard-failed", "shard": name, "out": out}, no_input=True)
@@ -1194,6 +1198,8 @@ def correspondence(ctx, cases, report=True):
             oi = owner_of.get((ci, dn))
             key = full_key(kn, case, obs, exp)
             vs = variant_ok.get(oi, []) if oi is not None else []
+            if vs:
+                transcribed_keys.add(json.dumps(dict(key, matches_transcribed_defect=True), sort_keys=True))
             key["matches_transcribed_defect"] = bool(vs)
             transcribed += 1 if vs else 0
             ctx.violation({"kind": "kernel-differs-from-dense-definition", "case": case, "dtype": dn,
@@ -1203,7 +1209,7 @@ def correspondence(ctx, cases, report=True):
     return {"evaluations": evals, "terms": len(terms), "mismatches": len(mism), "direct_failures": len(direct_fail),
             "direct_failures_equal_to_a_transcribed_defect": transcribed,
             "model_wrong": n_model_wrong, "per_kernel": per_kernel, "shard_failures": len(shard_fail), "nonint": nonint,
-            "owners": owners, "direct": direct_fail}
+            "owners": owners, "direct": direct_fail, "transcribed_keys": transcribed_keys}
 
 
 def search_on_failure_factory(ctx):
@@ -1238,6 +1244,8 @@ def run(ctx):
     cases = build_cases(ctx)
     st = correspondence(ctx, cases)
     qr = c20_qr.correspondence(ctx)
+    scan = c20_large.source_scan()
+    lg = c20_large.run(ctx, scan, st["transcribed_keys"])
     distinct = len({json.dumps({k: v for k, v in c.items()}, sort_keys=True) for _, c in cases
                     if c["cell"].get("n", c["cell"].get("m", 2)) >= 2})
     ctx.coverage.update({
@@ -1250,17 +1258,20 @@ def run(ctx):
             "PrimFloat / SpecFloat (binary32) evaluation of ModelQR by vm_compute stands for torch float64 / float32 CPU arithmetic (same IEEE operations; stable_qr compared bit-exactly, stable_pinverse with tolerance eps*cond)",
             "correspondence harness harness/c20.py, harness/c20_qr.py and the comparators coq/C20/Check.v, coq/C20/CheckQR.v",
             "dense oracle: plain torch float64 on dense tensors assembled by the harness"],
-        "evaluations": st["evaluations"] + qr["evaluations"], "coq_terms": st["terms"] + qr["terms"],
+        "evaluations": st["evaluations"] + qr["evaluations"] + lg["evaluations"], "coq_terms": st["terms"] + qr["terms"],
+        "large_size_family": {k: v for k, v in lg.items() if k != "sample"},
+        "source_scan": c20_large.evidence_scan(scan),
         "mismatches_with_spec_model": st["mismatches"],
         "direct_property_failures": st["direct_failures"],
         "direct_property_failures_equal_to_a_transcribed_known_defect": st["direct_failures_equal_to_a_transcribed_defect"],
         "per_kernel": st["per_kernel"],
         "qr_pinverse": {k: v for k, v in qr.items() if k != "sample"},
-        "distinct_nontrivial": distinct + qr["distinct_nontrivial"],
+        "distinct_nontrivial": distinct + qr["distinct_nontrivial"] + lg["distinct_cells"],
         "rule": "distinct (kernel, structural cell, integer inputs) with matrix size >= 2 (index kernels; every case is run in float64 and "
                 "float32 and compared exactly with the Coq model and with the dense definition) plus distinct (function, shape, batch, "
-                "family, dtype) cells of the QR / pseudo-inverse grid that are near-singular or at least 2 x 2",
-        "samples": [cases[len(cases) // 3][1], cases[-1][1], qr["sample"]],
+                "family, dtype) cells of the QR / pseudo-inverse grid that are near-singular or at least 2 x 2, plus distinct structural "
+                "cells of the large-size family (sizes 31..1025, direct predicate only)",
+        "samples": [cases[len(cases) // 3][1], cases[-1][1], qr["sample"], lg["sample"]],
     })
     ctx.assumptions = ["inputs are integer-valued tensors small enough for exact float32/float64 arithmetic",
                        "index tensors are contiguous LongTensors with the same shape as the value tensors"]
